@@ -359,6 +359,16 @@ def n1(ctx, res):
                       "first_witnesses": [f"U+{cp:04X} {chr(cp)!r}" for cp in bad[:5]]},
               reason="every character copied into the attribute name (after the ' '/'-' -> '_' replacement) may occur in a "
                      "Python identifier - decided over all code points with the interpreter's own tables")
+    # Python reads identifiers in NFKC (PEP 3131): a kept character that is not its own NFKC form makes the name that
+    # the generated module binds differ from the parsed attribute name - unless the name is normalised first
+    normalises = any(isinstance(x, ast.Call) and dotted(x.func) in ("unicodedata.normalize", "normalize") and x.args
+                     and isinstance(x.args[0], ast.Constant) and x.args[0].value == "NFKC" for x in walk_own(pan.body))
+    unstable = [cp for cp in range(sys.maxunicode + 1) if pred(chr(cp)) and unicodedata.normalize("NFKC", repl.get(chr(cp), chr(cp))) != repl.get(chr(cp), chr(cp))]
+    res.judge(True if (normalises or not unstable) else False, pan, "kept characters are stable under NFKC, or the name is normalised first",
+              detail={"normalises": normalises, "unstable_kept_characters": len(unstable),
+                      "first_witnesses": [f"U+{cp:04X} {chr(cp)!r} -> {unicodedata.normalize('NFKC', chr(cp))!r}" for cp in unstable[:5]]},
+              reason="the generated module declares the property under the NFKC form of the name (Python normalises identifiers), "
+                     "which is a different attribute from the parsed one - or a keyword, for a full-width spelling of one")
     # whitespace branch and label alphabet
     ws_ok = has(f"if {ch} in string.whitespace:\n    return '_'", cm)
     res.check(ws_ok, cm, "whitespace -> '_'", reason="other whitespace becomes an underscore")
@@ -641,6 +651,57 @@ def _title_patterns(ctx, tf):
             else:
                 seg = pat.value
     return delim, seg
+
+
+@rule("N5", "the recorded JSON name is tested for presence, never for truth (the empty string is a property name)")
+def n5(ctx, res):
+    """`source` is None while unset.  `prop.source or name`, `if not self.source` also fire for the JSON name "":
+    the property is then re-bound to (or emitted / required under) its Python name `blank`."""
+    n_sites = 0
+    n_presence = 0
+    for f in sorted(ctx.prog.all_funcs(), key=lambda f: f.qualname):
+        if not f.module.name.startswith("statham."):
+            continue
+        for x in walk_own(f.body):
+            hit = None
+            if isinstance(x, ast.BoolOp) and isinstance(x.op, ast.Or) and isinstance(x.values[0], ast.Attribute) and x.values[0].attr == "source":
+                if getattr(x, "_presence", False):
+                    n_presence += 1
+                    continue  # written as a test against None (see model._PresenceSpelling)
+                hit = norm(x)
+            elif isinstance(x, (ast.If, ast.IfExp, ast.While)):
+                if getattr(x.test, "_presence", False):
+                    n_presence += 1
+                    continue
+                t, _pol = strip_not(x.test)
+                if isinstance(t, ast.Attribute) and t.attr == "source":
+                    hit = ("if " if _pol else "if not ") + norm(t)
+            elif isinstance(x, ast.comprehension):
+                for c in x.ifs:
+                    t, _pol = strip_not(c)
+                    if isinstance(t, ast.Attribute) and t.attr == "source":
+                        hit = "if " + norm(c)
+            if hit:
+                n_sites += 1
+                res.violation(f, hit, reason="the JSON name is tested by truth value: the empty property name \"\" is treated as "
+                                             "'no name recorded' and replaced by the Python name")
+    res.stat("truthiness_tests_on_source", n_sites)
+    res.stat("presence_tests_on_source", n_presence)
+    res.floor("tests_on_source", n_sites + n_presence, 4)
+    bind = ctx.func("_Property.bind")
+    sp = bind.self_param()
+    stores = [st for st in walk_own(bind.body) if isinstance(st, ast.Assign) and any(norm(t) == f"{sp}.source" for t in st.targets)]
+    verdict = None
+    for st in stores:
+        gs = flat_guards(Parents(bind), st)
+        raw = [x.test for x in walk_own(bind.body) if isinstance(x, ast.If) and any(y is st for y in ast.walk(x))]
+        if any((cmp_atom(t, pol) or (None,) * 3)[:3] == (f"{sp}.source", "is", "None") for t, pol in gs) \
+                or any(getattr(t, "_presence", False) for t in raw):
+            verdict = True if verdict is None else verdict
+        elif any(isinstance(strip_not(t, pol)[0], ast.Attribute) and strip_not(t, pol)[0].attr == "source" for t, pol in gs):
+            verdict = False
+    res.judge(verdict if stores else None, bind, "self.source = name only while self.source is None",
+              reason="binding fills in the JSON name only when none was given; a given name - also the empty one - is kept")
 
 
 @rule("N4", "the numeric suffix that disambiguates equal titles disappears when the emitted title is parsed again")
